@@ -17,6 +17,34 @@ CHECKS = {
         "Trusted: harness/gen.py (grammar, expected_view), the library constructors storing their arguments (asserted per case).",
         "DESIGN.md section 4, C20",
     ),
+    "C03": (
+        "exploration",
+        "exhaustive attribute-subset sweep + Hypothesis grammar/foreign-spelling round-trip (metamorphic), structural-view oracle",
+        "Generated-input search with a round-trip and a metamorphic oracle: every kind x every subset of optional attributes is "
+        "swept exhaustively, values/children/spellings are drawn by Hypothesis; the expected view is computed from the generating "
+        "spec, the foreign spellings come from a hand-written serializer. Exploration: unbounded text domain, absence not established.",
+        "Trusted: harness/gen.py (grammar, hand-written serializer, expected_view), xml.etree as XML reference.",
+        "DESIGN.md section 4, C03",
+    ),
+    "C10": (
+        "exploration",
+        "exhaustive resolution-grid and number-grammar enumeration + Hypothesis formats/values, independent INDI number reference",
+        "Generated-input search against an independent reference of the INDI number conventions (harness/refnum.py): complete "
+        "resolution grids of the sexagesimal formats on [-360,360], exhaustive grammar strings up to a length bound crossed with "
+        "format classes, Hypothesis for printf flags/width/precision and value classes. Exploration with exhaustive parts; the bounds "
+        "are in the evidence.",
+        "Trusted: harness/refnum.py (sign on the whole magnitude, fields 1/60 apart), tolerance = one resolution unit.",
+        "DESIGN.md section 4, C10",
+    ),
+    "C13": (
+        "exploration",
+        "exhaustive constrained-field x replacement-catalogue perturbation + Hypothesis random perturbation/random XML (+ atheris in thorough), independent conformance validator",
+        "Generated-input search: every constrained field of every message kind is replaced by every entry of a catalogue (absent, "
+        "empty, wrong case, foreign vocabulary, arbitrary, Python-internal looking), plus random multi-perturbations, random XML and a "
+        "coverage-guided campaign; whatever the parser accepts is judged by a validator hard-coded from the INDI DTD. Exploration.",
+        "Trusted: the validator in harness/props/c13.py (vocabularies, required attributes, number syntax).",
+        "DESIGN.md section 4, C13",
+    ),
 }
 
 NOT_BUILT_REASON = "check not built yet in this session (see DESIGN.md Appendix A); will be claimed once its check runs clean on the unchanged tree"
